@@ -59,7 +59,13 @@ def main():
             rca, outa = sh(["git", "apply", "-3", os.path.join(sdir, "patch.diff")], cwd=wt)
         meta["patch_applies"] = rca == 0
         if rca != 0:
-            meta["apply_error"] = outa[-500:]
+            # the change was made against an earlier commit and the lines it touches were repaired since:
+            # keep the results recorded at its own base, note that it no longer applies
+            keep = dict(old)
+            keep["no_longer_applies_on"] = meta["base"]
+            keep["apply_error"] = outa[-300:]
+            meta.clear()
+            meta.update(keep)
             return meta
         rcb, outb = sh(["go", "build", "./..."], cwd=wt)
         meta["builds"] = rcb == 0
